@@ -37,6 +37,17 @@ fn run_child(run_dir: &PathBuf, key: u64, config: &Config, ops: &[Op], focus: &s
     let focus = focus.to_string();
     let outcome = run_forked(CHILD_TIMEOUT_S, move || {
         shim::reseed(key);
+        if let Ok(path) = std::env::var("ZYSIM_PANIC_LOG") {
+            // debugging aid: every panic with a backtrace
+            std::panic::set_hook(Box::new(move |info| {
+                use std::io::Write;
+                if let Ok(mut file) = std::fs::OpenOptions::new().create(true).append(true).open(&path) {
+                    let _ = writeln!(file, "PANIC: {info}\n{}\n", std::backtrace::Backtrace::force_capture());
+                }
+            }));
+        } else {
+            std::panic::set_hook(Box::new(|_| {}));
+        }
         let result = zysim_common::with_big_stack(512 << 20, move || {
             let executor = Executor { run_dir: &run_dir, config: &config, focus: &focus, max_violations: 1 };
             let record = executor.execute(&ops);
